@@ -4,6 +4,7 @@ CONSTANTS
   DropLastBitmap = FALSE
   KeepGroupByScratch = FALSE
   ClobberOnFlush = FALSE
+  BigByFold = FALSE
 CONSTRAINT HighWater
 POSTCONDITION Accepted
 CHECK_DEADLOCK FALSE
